@@ -347,8 +347,26 @@ std::string propTsm(const FmmCase& c, const std::string& prop){
             std::string r = fh::checkParticleValues<Dim>(treeR->targetTree(), rt, [&](const Coord&, long id){ return acc[size_t(id)]; }, nb);
             return r.empty() ? r : std::string(when) + ": " + r;
         };
+        // results are user-visible and mutable: add a particle-specific amount to every result column between executions, so that no
+        // column (in particular the contribution count, equal for all targets after a full execution) is constant over the particles
+        long nbPerturb = 0;
+        auto perturb = [&](){
+            nbPerturb += 1;
+            treeR->applyToAllLeavesTarget([&](auto&& header, const long int* idx, auto&& /*data*/, auto&& rhs){
+                for(long i = 0 ; i < header.nbParticles ; ++i){
+                    const size_t id = size_t(idx[i]);
+                    gf::Val add;
+                    for(int k = 0 ; k < gf::NEVAL ; ++k) add.v[k] = gf::splitmix(c.salt * 31 + uint64_t(id) * 7 + uint64_t(k) + uint64_t(nbPerturb) * 1000003u) % gf::P;
+                    add.cnt = long(gf::splitmix(c.salt + uint64_t(id) * 13 + uint64_t(nbPerturb)) % 1000) + 1;
+                    for(int k = 0 ; k < gf::NEVAL ; ++k) rhs[size_t(k)][i] = gf::add(uint64_t(rhs[size_t(k)][i]), add.v[k]);
+                    rhs[gf::NEVAL][i] += add.cnt;
+                    gf::addPlain(acc[id], add);
+                }
+            });
+        };
         e = executeR(); if(!e.empty()) return e;
         e = checkAcc("after the first execution"); if(!e.empty()) return e;
+        perturb();
         long nbRebuilds = 0;
         for(const auto& cyc : cc.cycles){
             std::map<long, Pos4> mv[2];
@@ -369,6 +387,7 @@ std::string propTsm(const FmmCase& c, const std::string& prop){
             if(!zero) return "cell expansions are not reset to zero by rebuild (target/source tree)";
             e = executeR(); if(!e.empty()) return e;
             e = checkAcc("after rebuild + execution"); if(!e.empty()) return e;
+            perturb();
         }
         st.cls("tsm-rebuilds", nbRebuilds);
     }
